@@ -1075,7 +1075,11 @@ helperHandleRead(const Comm::ConnectionPointer &conn, char *, size_t len, Comm::
             int i = 0;
             if (hlp->childs.concurrency) {
                 char *e = nullptr;
-                i = strtol(msg, &e, 10);
+                errno = 0;
+                const auto parsedId = strtol(msg, &e, 10);
+                // popRequest() takes an int: a channel ID that does not fit
+                // must not be truncated into some other request's ID
+                i = (errno == ERANGE || parsedId < 0 || parsedId > INT_MAX) ? -1 : static_cast<int>(parsedId);
                 // Do we need to check for e == msg? Means wrong response from helper.
                 // Will be dropped as "unexpected reply on channel 0"
                 // A channel ID may continue in the next read, but only if
